@@ -1445,10 +1445,29 @@ _NP_FUNCS = {
     "setdiff1d": lambda *a, **k: _np_setdiff1d(*a, **k),
     "diff": lambda a, **k: (lambda v: XArray((max(len(v) - 1, 0),), [v[i + 1] - v[i] for i in range(len(v) - 1)]))(list(XArray.from_nested(a).data)),
     "bincount": lambda x, weights=None, minlength=0: _np_bincount(x, weights, minlength),
+    "flatnonzero": lambda a: _np_flatnonzero(a),
     "iscomplexobj": lambda a: False,
     "int64": lambda x=0: x,
     "int32": lambda x=0: x,
 }
+
+
+def _np_flatnonzero(a):
+    vals = list(XArray.from_nested(a).data)
+    out = []
+    for i, v in enumerate(vals):
+        v = exact(v)
+        if isinstance(v, bool):
+            nz = v
+        elif isinstance(v, (int, Fraction)):
+            nz = v != 0
+        elif isinstance(v, Poly) and v.is_const():
+            nz = v.const_value() != 0
+        else:
+            raise XArrayError("np.flatnonzero of an undecided value")
+        if nz:
+            out.append(i)
+    return XArray((len(out),), out)
 
 
 def _np_bincount(x, weights=None, minlength=0):
@@ -1673,6 +1692,8 @@ _PY_BUILTINS = {
     "getattr": lambda o, n, d=None: getattr(o, n, d) if not isinstance(o, (XObj,)) else o.attrs.get(n, d),
     "hasattr": lambda o, n: hasattr(o, n),
     "setattr": _py_setattr,
+    "next": lambda it, *d: next(it, *d),
+    "iter": iter,
     "str": str,
     "slice": slice,
     "bool": bool,
